@@ -253,6 +253,12 @@ def run_case(case):
             sl = tuple(slice(None, None, 2) for _ in shape)
             big[sl] = crandn(rng, shape, dtype)
             x = big[sl]                                  # strided view
+        elif view and len(shape) >= 3 and sum(case["rs"]) % 3 == 1:
+            # a cyclically transposed view (np.moveaxis(stored, -1, 0): coils stored last,
+            # transformed first) - an axis order that is not its own inverse
+            perm = list(range(1, len(shape))) + [0]
+            inv = [perm.index(a_) for a_ in range(len(shape))]
+            x = np.ascontiguousarray(crandn(rng, shape, dtype).transpose(perm)).transpose(inv)
         elif view and len(shape) >= 2:
             x = crandn(rng, shape[::-1], dtype).T        # non-contiguous input
         else:
